@@ -774,20 +774,24 @@ static char *detect_include_guard(Token *tok) {
   if (!is_hash(tok) || !equal(tok->next, "define") || !equal(tok->next->next, macro))
     return NULL;
 
-  // Read until the end of the file.
-  while (tok->kind != TK_EOF) {
-    if (!is_hash(tok)) {
-      tok = tok->next;
+  // Find the #endif that closes the #ifndef. The file is guarded only
+  // if that #endif is the last thing in the file and the #ifndef has
+  // no #else or #elif branch.
+  int depth = 0;
+  for (tok = tok->next; tok->kind != TK_EOF; tok = tok->next) {
+    if (!is_hash(tok))
       continue;
+
+    Token *dir = tok->next;
+    if (equal(dir, "if") || equal(dir, "ifdef") || equal(dir, "ifndef")) {
+      depth++;
+    } else if (depth == 0 && (equal(dir, "else") || equal(dir, "elif"))) {
+      return NULL;
+    } else if (equal(dir, "endif")) {
+      if (depth == 0)
+        return (dir->next->kind == TK_EOF) ? macro : NULL;
+      depth--;
     }
-
-    if (equal(tok->next, "endif") && tok->next->next->kind == TK_EOF)
-      return macro;
-
-    if (equal(tok, "if") || equal(tok, "ifdef") || equal(tok, "ifndef"))
-      tok = skip_cond_incl(tok->next);
-    else
-      tok = tok->next;
   }
   return NULL;
 }
